@@ -1,0 +1,81 @@
+//go:build verif
+
+package lossy
+
+import (
+	"path/filepath"
+	"runtime"
+)
+
+// Verification hooks for the ALPH codec (property C07). Compiled only with
+// the build tag "verif"; thin wrappers of unexported functions, no behaviour
+// of their own.
+
+// VerifAlphaFilter applies the forward prediction filter f (1 horizontal,
+// 2 vertical, 3 gradient) to in and returns the filtered plane; f == 0
+// returns in itself, as encodeAlphaInternal does.
+func VerifAlphaFilter(f int, in []byte, width, height int) []byte {
+	if f == AlphaFilterNone {
+		return in
+	}
+	out := make([]byte, width*height)
+	switch f {
+	case AlphaFilterHorizontal:
+		alphaFilterHorizontal(in, width, height, out)
+	case AlphaFilterVertical:
+		alphaFilterVertical(in, width, height, out)
+	case AlphaFilterGradient:
+		alphaFilterGradient(in, width, height, out)
+	}
+	return out
+}
+
+// VerifAlphaUnfilter applies the inverse prediction filter f in place.
+func VerifAlphaUnfilter(f int, data []byte, width, height int) {
+	switch f {
+	case AlphaFilterHorizontal:
+		alphaUnfilterHorizontal(data, width, height)
+	case AlphaFilterVertical:
+		alphaUnfilterVertical(data, width, height)
+	case AlphaFilterGradient:
+		alphaUnfilterGradient(data, width, height)
+	}
+}
+
+// VerifQuantizeLevels is quantizeLevels (in place).
+func VerifQuantizeLevels(data []byte, width, height, numLevels int) {
+	quantizeLevels(data, width, height, numLevels)
+}
+
+// VerifGetFilterMap is getFilterMap.
+func VerifGetFilterMap(alpha []byte, width, height, filter, effortLevel int) uint32 {
+	return getFilterMap(alpha, width, height, filter, effortLevel)
+}
+
+// VerifEstimateBestFilter is estimateBestFilter.
+func VerifEstimateBestFilter(data []byte, width, height int) int {
+	return estimateBestFilter(data, width, height)
+}
+
+// VerifGetNumColors is getNumColors.
+func VerifGetNumColors(data []byte, width, height int) int {
+	return getNumColors(data, width, height)
+}
+
+// VerifEncodeAlphaInternal is encodeAlphaInternal.
+func VerifEncodeAlphaInternal(data []byte, width, height, method, filter int,
+	reduceLevels bool, effortLevel int) ([]byte, int, error) {
+	return encodeAlphaInternal(data, width, height, method, filter, reduceLevels, effortLevel)
+}
+
+// VerifAlphaVP8LStream is alphaVP8LStream.
+func VerifAlphaVP8LStream(payload []byte, width, height int) []byte {
+	return alphaVP8LStream(payload, width, height)
+}
+
+// VerifAlphaSource is the path of alpha.go in the tree this binary was built
+// from (the harness re-reads the documented quality-to-levels mapping from it).
+func VerifAlphaSource() string {
+	_, f, _, _ := runtime.Caller(0)
+	return filepath.Join(filepath.Dir(f), "alpha.go")
+}
